@@ -275,6 +275,8 @@ func makeField(v reflect.Value, params fieldParameters) (encoder, error) {
 					tag.tagNumber = TagSequence
 				}
 				s := make([]encoder, structType.NumField())
+				// also when every member is an absent OPTIONAL one
+				berType.value = structEncoder(s)
 				for i := 0; i < structType.NumField(); i++ {
 					tempParams := parseFieldParameters(structType.Field(i).Tag.Get("ber"))
 					if tempParams.optional {
